@@ -13,6 +13,12 @@ Specification (all verdict-relevant knowledge is TLA+):
   spec/IsaAlias.tla   REGISTER-SYMBOL dimension (+ IsaAliasTab.tla, instantiated by Isa4004_Alias / IsaAvr_Alias /
                       IsaMsp430_Alias): a case is a HISTORY - definition statements build a symbol table (operational
                       Define / Eval, declarative Denotes on the program text), the machine statement reads it
+  spec/Isa8080Z.tla   SYNTAX dimension: the 8080 / 8085 instruction set in the second syntax asl accepts for it
+                      (Z80SYNTAX ON / EXCLUSIVE); no second table: the Z80-style spellings are DERIVED as the forms of
+                      IsaZ80.tla whose encoding is an unprefixed opcode of Isa8080.tla (+ the manual's CP A,n, LD A,IM, LD IM,A)
+  spec/IsaHist.tla    HISTORY dimension (+ IsaCtxTab.tla, instantiated by Isa*_Hist on top of Isa*_Gen): every leaf of the
+                      case graph is printed with a CONTEXT statement for the line in front of it; the expectation is the
+                      context-free one of the table
   spec/Isa_Trace.tla  (V) explains recorded statements of golden programs with the tables
 
 (M) per CPU variant TLC explores the complete case graph and checks at every leaf UnitsTyped, DecodeInverts (the
@@ -20,14 +26,50 @@ Specification (all verdict-relevant knowledge is TLA+):
     OutOfRangeIsError; once per table: pieces cover every field bit exactly once and never overlap opcode bits, no two
     non-alias forms can yield the same opcode, and the manufacturer's opcode counts (4004 239 / 4040 253, 8080 244 /
     8085 246, 6502 151 / 65SC02 178 / 65C02 210 / W65C02S 212, 6800 197, Z80 pages 252 / 248 CB / 56 ED, PIC16 word count).
-(G) every leaf is printed by TLC as statement pieces + expected units or expected rejection.  Expected-accepted
-    statements: sources of 1000 statements after `cpu <name>` (`org` before statements with PC-dependent operands);
-    the `emit` hook events (line, bytes) AND the flattened code-file records are compared with TLC's units.
-    Expected-rejected / convention-zone statements: screened in chunks of 40 per run (diag/emit events are per line);
-    every statement that does not show exactly the expected picture - and, without hooks, every statement - is
-    assembled alone and judged there: an error must be reported and NOTHING may be emitted for the statement;
-    convention-zone operands (negative spelling of an unsigned field, address beyond the device) may be rejected, but if
-    accepted the two's complement must be emitted.
+(G) every leaf is printed by TLC as statement pieces + expected units or expected rejection, together with its context
+    statement (H).  Expected-accepted statements: sources of 500 cases (context statement, statement) after `cpu <name>`
+    (`org` before cases with PC-dependent operands); the `emit` hook events (line, bytes) AND the flattened code-file
+    records are compared with TLC's units.  Expected-rejected / convention-zone statements: screened in chunks of 40
+    cases per run (diag/emit events are per line); every case that does not show exactly the expected picture - and,
+    without hooks, every case - is assembled alone and judged there, and if it is fine alone, in its context (H): an
+    error must be reported and NOTHING may be emitted for the statement; convention-zone operands (negative spelling of
+    an unsigned field, address beyond the device) may be rejected, but if accepted the two's complement must be emitted.
+(S) SYNTAX dimension (spec/Isa8080Z.tla; generator Isa8080Z_Gen / Isa8080Z_Hist).  asl accepts a SECOND syntax for the
+    8080 / 8085 (doc/pseudo-instructions.md "Z80SYNTAX", doc/processor-specific-hints.md "8080/8085"): with Z80SYNTAX
+    ON (almost) every instruction may also be written the way Zilog defined it for the Z80, with EXCLUSIVE only that way.
+    It is the same machine: same reference encoder, same range limits.  The Z80-style forms are not tabulated again but
+    derived: ZCore = the forms of the Z80 table (Zilog manual) whose encoding is one unprefixed opcode byte the 8080
+    table (Intel manual) defines (72 forms: LD in 15 shapes, the 8 ALU operations x r / n / (HL), INC / DEC r, ss, (HL),
+    ADD HL,ss, PUSH / POP qq, EX DE,HL, EX (SP),HL, JP / CALL [cc,]nn, JP (HL), RET [cc], RST p, IN A,(n), OUT (n),A,
+    RLCA .. HALT); TLC checks ZAgrees (every opcode a ZCore form can start with starts an Intel form of the same length,
+    operand byte layout and range limits) and, in EXCLUSIVE mode, that the 244 / 246 opcodes are reached with the Z80
+    spellings alone.  From the manual: `CP n` and one-operand `JP nn` keep their Intel meaning in mode ON (shadowed Z
+    forms are dropped there, the comparison is written `CP A,n`), RIM / SIM = `LD A,IM` / `LD IM,A` (8085).  RST in mode
+    ON (manual silent): 0..7 is the Intel vector number, 8.. the Zilog address - generated with operand windows.
+    CPU variants (TLA+ Cpu constant = asl CPU : mode): 8080:ZON 8085:ZON (all Intel forms + unshadowed Z forms, 154
+    forms) 8080:ZEX 8085:ZEX (75 forms); each gets the full treatment (G) + (H) + (A).  quick: 8085:ZON, 8085:ZEX
+    (the 8080 differs by RIM / SIM only); thorough: all four.
+(H) HISTORY dimension (spec/IsaHist.tla, IsaCtxTab.tla; every ISA).  The instruction sets are context free, so a leaf of
+    the case graph - above all one with an operand just outside its range - must get the same verdict and units on the
+    line directly after ANY legal statement as at the start of a program; what the operand decoders of the previous
+    statement left behind (operand size, addressing mode, prefix / extension words) must not reach it.  TLC groups all
+    forms of the CPU that have representative legal operands by OPERAND SHAPE (number of units, set of (kind, width)
+    of the operand fields; 8 shapes on the 8080, 9 in its Z80 syntax, 22 on the Z80, 15 on the AVR) and gives every leaf one
+    context statement:
+    shape = (Salt + form number + sum of the ranks of the operand values in their class sets) mod (shapes + 1) (0 = no
+    context), form within the shape = the quotient mod the row length.  Along every operand dimension consecutive class
+    members (limit, limit + 1, the mask probes ...) therefore meet consecutive shapes, and over forms and seeds every
+    form of the table serves as context.  TLC checks at every leaf that the context is a legal judged statement of the
+    table that ends where the statement begins, and that the printed expectation is the table's alone.  thorough: 4
+    salts = 4 different rotations.
+    WHY (S) + (H) WERE ADDED: a change in code85.c (the per-statement reset `OpSize = 0` removed from MakeCode_85, an
+    `OpSize = 0` added to the 8-bit-register branch of DecodeAdr_Z80) compiled, passed the 201 tests and was NOT
+    reported: with Z80SYNTAX ON / EXCLUSIVE the 8/16-bit immediate selector then survives from one statement to the
+    next, and after `LD HL,nn` / `INC DE` / `CALL nn` ... the immediates of `LD (HL),n` and of one-operand SUB / AND /
+    OR / XOR are range-checked as 16 bit: `LD (HL),300` -> 36 2C instead of an error.  Neither dimension existed: no
+    statement was ever written in the second syntax, and every out-of-range statement was judged ALONE (a deviation in a
+    screening chunk was re-run without its predecessors); the adjacency pairs (A) are legal statements only, one form
+    per mnemonic.  Now: 53 violations (LD (HL),n / SUB n / AND n / OR n / XOR n, both modes), exit 1.
 (A) ADJACENCY dimension (inter-instruction state; IsaGen.tla SInit / SeqOut): per CPU variant TLC enumerates every
     ORDERED PAIR of mnemonics of the table (6502: 56 x 56, W65C02S: 98 x 98, ATMEGA128: 111 x 111 ...), picks a
     representative form and legal operands for both and prints the two statements with their units; the harness puts
@@ -83,15 +125,24 @@ an encoder that masks the operand before its range check lets them through (AVR 
     an encoding the instruction set has for it, and that is only the absolute one (opcode, low byte, 00) - a two-byte
     JMP is no 6502 instruction under either reading.  `<` where a zero-page form exists and `>` are not generated.
 
-ISAs covered: see ISAS.  quick: K = 3, one seed-derived salt, 6502 + W65C02S (+ MELPS740 adjacency), ATMEGA128, MSP430
-sample subset (MOV / ADD.B / CMP[.B] + format II + jumps + emulated); thorough: K = 8, 4 salts, all CPU variants, all
+ISAs covered: see ISAS.  quick: K = 3, one seed-derived salt, 6502 + W65C02S (+ MELPS740 adjacency), ATMEGA128, 8085 in
+both Z80-syntax modes, MSP430 sample subset (MOV / ADD.B / CMP[.B] + format II + jumps + emulated); thorough: K = 8, 4 salts, all CPU variants, all
 12 MSP430 format-I operations.  The evidence names the ISAs of the run; nothing outside the list is "passed".
 Measured (VERIF_JOBS=6, machine shared): quick 62 s (23 single-worker TLC runs in a pool of 6: 48 s; replay of
 ~259,000 statements: 12 s); with the register-symbol dimension 27 TLC runs, ~269,700 statements: same wall time
 within the noise of the shared machine (under load: TLC phase 101 / 106 / 110 / 128 s with it, 109 s without it; the
 four added runs cost ~25 CPU-seconds in the pool of 6, their replay ~1.5 s).
+With the syntax + history dimensions (31 TLC runs, ~293,700 statements + their context lines; load average 60-110 from
+other jobs): quick 79 - 143 s wall / 420 - 450 CPU-s against 398 CPU-s before on the same day (+6 .. 13 %: the context costs
+~0.2 ms per leaf, W65C02S generator 14.5 -> 19.7 CPU-s; the two Z80-syntax generator runs 6-9 s each, their adjacency
+runs 5-9 s; replay of a CPU variant +45 %, MSP430 sample 1.4 -> 2.1 s); thorough 618 s wall (96 TLC runs, 1,513,000
+statements), no suspect on the unchanged tree in either tier.
 
-NOT covered / not judged: number spellings other than decimal; register aliases beyond the tables (AVR XL..ZH, MSP430
+NOT covered / not judged: Z80 syntax: CPU 8085UNDOC (no manufacturer's table), the 8008 (no modelled ISA), explicit
+accumulator `SUB A,..` / `AND A,..` and Intel register names in Z80-style statements (manual silent), that EXCLUSIVE
+rejects the Intel mnemonics; history: contexts of more than one statement, REJECTED statements as context (a statement
+with an error leaves decoder state behind too), every shape for every single operand value (rotation); number
+spellings other than decimal; register aliases beyond the tables (AVR XL..ZH, MSP430
 R3); register symbols: forward references (the manual warns they become plain numbers), section-local symbols, a
 symbol name where a NUMBER is expected, lower/mixed-case spellings, the other operands at more than IsaGen's one
 representative value, MSP430 registers a field of the reduced table does not list; undocumented
@@ -133,11 +184,13 @@ the 201 ctest tests, all were reported as VIOLATION:
       The seeded codemsp.c change above: 169 groups (every MSP430 mode, PC / SP / SR, every scenario), exit 1.
       Binding of the model itself: Define without replacing the old entry of a re-defined name makes TLC report
       SymMeaning violated (REDEF / := / SNAPSHOT scenarios).
+  syntax + history dimension (scratch worktree, ctest 201/201): the seeded code85.c change above -> 53 violations,
+      exit 1; on the unchanged tree the two Z80-syntax variants and all contexts pass without a single suspect.
 Binding of (V): truncating the recorded units of a JMP or flipping opcode bit 0 of an MVI event makes Isa_Trace reject.
 """
 import os
 
-from vlib import aslrun, build, isa, isa_alias, tlc
+from vlib import aslrun, build, isa, isa_alias, isa_hist, tlc
 from vlib.common import NCPU, CheckError, Phase, log, pmap, rng, seed
 from vlib.report import Report
 
@@ -146,6 +199,12 @@ PID = "C14"
 ISAS = [
     isa.IsaCfg("4004/4040", "Isa4004_Gen", [("4004", "4004"), ("4040", "4040")]),
     isa.IsaCfg("8080/8085", "Isa8080_Gen", [("8080", "8080"), ("8085", "8085")]),
+    # SYNTAX dimension (spec/Isa8080Z.tla): the same instruction set in the second syntax asl accepts for it; the TLA+ Cpu
+    # constant names CPU and mode, the mode statement is the header line behind `cpu`
+    isa.IsaCfg("8080/8085 Z80SYNTAX ON", "Isa8080Z_Gen", [("8080:ZON", "8080"), ("8085:ZON", "8085")],
+               header=["\tz80syntax\ton"], quick=["8085:ZON"]),
+    isa.IsaCfg("8080/8085 Z80SYNTAX EXCLUSIVE", "Isa8080Z_Gen", [("8080:ZEX", "8080"), ("8085:ZEX", "8085")],
+               header=["\tz80syntax\texclusive"], quick=["8085:ZEX"]),
     isa.IsaCfg("6502/65C02", "Isa6502_Gen", [("6502", "6502"), ("65SC02", "65SC02"), ("65C02", "65C02"),
                                              ("W65C02S", "W65C02S")], quick=["6502", "W65C02S"],
                seq_only=[("MELPS740", "MELPS740")]),
@@ -194,6 +253,8 @@ def key_of(cfg, cpu, case, kind, em=None):
             "forced": a1[:1] if a1[:1] in ("<", ">") else "", "prev": case.get("prev", ""),
             # register-symbol dimension: definition scenario and the register literal the symbol denotes
             "alias": case.get("scen", ""), "reg": case.get("reg", ""),
+            # history dimension: form of the context statement on the line in front (judged in that context)
+            "ctx": case.get("ctxid", ""),
             "dev": deviation(case, em)}
 
 
@@ -212,6 +273,8 @@ def judge(rep, cfg, cpu, case, src, line, rc, em, errs, sig=None, timeout=False,
     at = (" at %d" % case["pc"]) if case["pc"] >= 0 else ""
     if case.get("prev"):
         at += " on the line directly after a %s statement" % case["prev"]
+    if case.get("ctxstmt"):
+        at += " on the line directly after the statement '%s'" % case["ctxstmt"]
     if case.get("pre"):
         at += " after the definitions [%s] (register symbol for %s)" % (
             "; ".join(" ".join(isa_alias.def_text(d).split("\t")) for d in case["pre"]), case.get("reg"))
@@ -356,6 +419,102 @@ def replay_cpu(rep, bld, cfg, cpu, aslcpu, cases, srcmod=isa):
     return len(acc), len(oth), len(singles)
 
 
+HIST_ACC_CHUNK = 500    # statements per source in the history layout (context + statement: as many units as ACC_CHUNK before)
+
+
+def _ctx_fine(x, em, errs):
+    return x is None or (not errs and em == x["units"])
+
+
+def replay_hist(rep, bld, cfg, cpu, aslcpu, cases):
+    """HISTORY dimension (spec/IsaHist.tla): every case is a leaf statement + the context statement TLC chose for it; the
+    context stands on the line directly in front of the statement (vlib.isa_hist.batch_source), in the sources of
+    accepted-expected statements as well as in the screening chunks of rejected-expected / convention-zone statements.
+    A case whose statement or context does not show exactly the expected picture is a suspect: it is assembled ALONE
+    (as before the dimension existed) and judged there, and if that is fine it is assembled IN ITS CONTEXT as a
+    two-statement program and judged there - the expectation is the same, that is the property."""
+    acc = [c for c in cases if c["exp"] == "units"]
+    oth = [c for c in cases if c["exp"] != "units"]
+    singles = []
+    for c in cases:
+        rep.evaluated()
+        rep.distinct((cfg.name, cpu, isa.stmt_text(c), c["pc"]), True)
+    if bld.hooks:
+        accgroups = [acc[i:i + HIST_ACC_CHUNK] for i in range(0, len(acc), HIST_ACC_CHUNK)]
+        groups = accgroups + [oth[i:i + CHUNK] for i in range(0, len(oth), CHUNK)]
+        jobs, metas = [], []
+        for g in groups:
+            src, where, cwhere = isa_hist.batch_source(cfg, aslcpu, g)
+            jobs.append({"sources": {"a.asm": src}, "opts": ["-q"], "events": "emit,diag", "timeout": 120})
+            metas.append((src, where, cwhere))
+        results = _many(bld, jobs)
+        for gi, (g, (src, where, cwhere), res) in enumerate(zip(groups, metas, results)):
+            if res.timeout or res.sig is not None or res.trace is None:
+                singles += g
+                continue
+            em, errs = isa.emitted_by_line(res.trace, cfg)
+            bad = [c for i, c in enumerate(g)
+                   if not (_fine(c, em.get(where[i], []), errs.get(where[i], []), res.rc)
+                           and _ctx_fine(isa_hist.ctx_of(c), em.get(cwhere.get(i), []), errs.get(cwhere.get(i), [])))]
+            singles += bad
+            rep.traces(1)
+            if gi < len(accgroups) and not bad:
+                # the code file itself (the property's observation point): contiguous layout of the same units
+                got = isa.code_units(res, cfg)
+                want = isa_hist.layout(cfg, g)
+                if got is None or got != want:
+                    k = 0
+                    if got is not None:
+                        while k < min(len(got), len(want)) and got[k] == want[k]:
+                            k += 1
+                    rep.violation("%s %s: code file differs from the units reported per line at unit #%d "
+                                  "(file %s, expected %s)" % (cfg.name, cpu, k, got[k:k + 3] if got else None,
+                                                              want[k:k + 3]),
+                                  files={"a.asm": src}, key={"isa": cfg.name, "cpu": cpu, "kind": "code-file"})
+    else:
+        singles = list(cases)
+    # suspects, alone ---------------------------------------------------------------------------------------------
+    jobs = []
+    for c in singles:
+        src, ln = isa.single_source(cfg, aslcpu, c)
+        jobs.append(({"sources": {"a.asm": src}, "opts": ["-q"], "events": "emit,diag" if bld.hooks else None}, ln))
+    results = _many(bld, [j for (j, ln) in jobs])
+    incontext = []
+    for c, (j, ln), res in zip(singles, jobs, results):
+        e1, r1 = _observe(bld, cfg, res, ln)
+        ok = judge(rep, cfg, cpu, c, j["sources"]["a.asm"], ln, res.rc, e1, r1, sig=res.sig, timeout=res.timeout,
+                   out=res.out + res.err)
+        if ok and isa_hist.ctx_of(c) is not None:
+            incontext.append(c)
+    # suspects that are fine alone, in their context -----------------------------------------------------------------
+    jobs = []
+    for c in incontext:
+        src, ln, cln = isa_hist.context_source(cfg, aslcpu, c)
+        jobs.append(({"sources": {"a.asm": src}, "opts": ["-q"], "events": "emit,diag" if bld.hooks else None}, ln, cln))
+    results = _many(bld, [j for (j, ln, cln) in jobs])
+    for c, (j, ln, cln), res in zip(incontext, jobs, results):
+        x = isa_hist.ctx_of(c)
+        src = j["sources"]["a.asm"]
+        xcase = dict(x, id=x["id"] + " (as context statement)", exp="units", ops=[],
+                     pc=c.get("org", -1) if c.get("org", -1) >= 0 else -1)
+        if bld.hooks and res.trace is not None:
+            xe, xr = _observe(bld, cfg, res, cln)
+            e1, r1 = _observe(bld, cfg, res, ln)
+        else:
+            # without hooks only the code file is seen: the context's units come first
+            allu, r1 = _observe(bld, cfg, res, ln)
+            n = len(x["units"])
+            xe, xr, e1 = allu[:n], [], allu[n:]
+            if allu[:n] != x["units"]:
+                xe, e1 = allu, []
+        if not judge(rep, cfg, cpu, xcase, src, cln, res.rc, xe, xr, sig=res.sig, timeout=res.timeout, out=res.out + res.err):
+            continue
+        judge(rep, cfg, cpu, dict(c, ctxstmt=isa.stmt_text(x).strip().replace("\t", " "), ctxid=x["id"]), src, ln, res.rc,
+              e1, r1, sig=res.sig, timeout=res.timeout, out=res.out + res.err)
+    rep.traces(len(singles) + len(incontext))
+    return len(acc), len(oth), len(singles), len(incontext)
+
+
 PAIRS_PER_SOURCE = 400
 # rough relative TLC cost per ISA (scheduling order only)
 WEIGHT = {"PIC16C8x": 5, "MSP430": 4, "AVR": 3, "6502/65C02": 2, "Z80": 2}
@@ -473,7 +632,7 @@ def main(tier):
         kind, t = tasks[i]
         if kind == "alias":
             return isa_alias.gen_alias(t[0], ALIAS[t[0].name], t[1], salts[0], t[3])
-        return isa.gen_cases(t[0], t[1], k, t[4]) if kind == "gen" else isa.gen_seq(t[0], t[1], salts[0])
+        return isa_hist.gen_cases(t[0], t[1], k, t[4]) if kind == "gen" else isa.gen_seq(t[0], t[1], salts[0])
     vfut = None
     if bld.hooks:
         import concurrent.futures
@@ -491,16 +650,24 @@ def main(tier):
     seqs = [done[len(todo) + i] for i in range(len(seqtodo))]
     aliases = [done[len(todo) + len(seqtodo) + i] for i in range(len(aliastodo))]
     for (cfg, cpu, aslcpu, si, salt), (r, cases) in zip(todo, gens):
-        name = "%s(%s,K=%d,Salt=%d)" % (cfg.module, cpu, k, salt)
+        name = "%s(%s,K=%d,Salt=%d)" % (isa_hist.hist_module(cfg), cpu, k, salt)
         with Phase("replay " + name):
             rep.model(name, r)
-            na, no, ns = replay_cpu(rep, bld, cfg, cpu, aslcpu, cases)
+            na, no, ns, nc = replay_hist(rep, bld, cfg, cpu, aslcpu, cases)
             forms = sorted({c["id"] for c in cases})
+            ctxs = [isa_hist.ctx_of(c) for c in cases]
             rep.part(name, forms=len(forms), statements=len(cases), expected_units=na,
-                     expected_reject_or_convention=no, assembled_alone=ns)
+                     expected_reject_or_convention=no, assembled_alone=ns, assembled_in_context=nc,
+                     statements_with_context=sum(1 for x in ctxs if x is not None),
+                     rejected_or_convention_with_context=sum(1 for c, x in zip(cases, ctxs)
+                                                             if x is not None and c["exp"] != "units"),
+                     context_forms=len({x["id"] for x in ctxs if x is not None}),
+                     context_shapes=len({x["shape"] for x in ctxs if x is not None}))
             if si == 0 and cpu == cfg.cpus[0][0]:
                 for c in cases[:1] + [c for c in cases if c["exp"] == "reject"][:1]:
+                    x = isa_hist.ctx_of(c)
                     rep.sample({"isa": cfg.name, "cpu": cpu, "statement": isa.stmt_text(c).strip(), "pc": c["pc"],
+                                "context_statement_on_the_line_before": isa.stmt_text(x).strip() if x else None,
                                 "expected": c["exp"], "units": c["units"]})
         if cfg.name not in covered:
             covered.append(cfg.name)
@@ -548,10 +715,13 @@ def main(tier):
                         "hooks: %s" % ("emit/diag events per line + code file" if bld.hooks else
                                        "unavailable: one statement per run, code file only")]
     return rep.finish(
-        rule="cases = every leaf of the Isa*_Gen graph: every form of the table x operand classes {0, 1, limits, "
-             "limits+-1, convention-zone limits +-1, midpoint, bit patterns, 2 seed-chosen interior values} x (for "
-             "PC-relative/page operands) each listed statement address x every distance within K of both "
-             "displacement limits; + every ordered pair of mnemonics on consecutive lines; + (4004/4040, AVR, MSP430) "
+        rule="cases = every leaf of the Isa*_Gen graph: every form of the table (8080/8085: in Intel syntax, in Z80 "
+             "syntax mixed with it (Z80SYNTAX ON) and in Z80 syntax alone (EXCLUSIVE)) x operand classes {0, 1, limits, "
+             "limits+-1, convention-zone limits +-1, midpoint, bit patterns, mask probes, 2 seed-chosen interior values} x "
+             "(for PC-relative/page operands) each listed statement address x every distance within K of both "
+             "displacement limits, each leaf on the line directly after one context statement (a legal statement of "
+             "the table; operand shape rotating with the ranks of the leaf's operand values, 0 = no context); "
+             "+ every ordered pair of mnemonics on consecutive lines; + (4004/4040, AVR, MSP430) "
              "every leaf of the Isa*_Alias graph: every form with a register field x field position x every register "
              "literal of the table (where the table is complete: also the registers the form does not take) x "
              "definition scenario of the register symbol the operand is written with; "
